@@ -146,4 +146,12 @@ Inductive uev :=
 | ULog (n : N)
 | UChk | UAct (i : nat)                          (* state machine: invariant / action i started *)
 | UActEnd (i : nat) (how : nat)                  (* 0 = returned, 1 = panicked before drawing, 2 = panicked after drawing *)
-| UCustomBegin | UCustomEnd (how : nat).         (* 0 = returned, 1 = panicked *)
+| UCustomBegin | UCustomEnd (how : nat)          (* 0 = returned, 1 = panicked *)
+| UFrameBegin | UFrameEnd.                       (* model only: a fresh inner T starts / is dropped *)
+
+(* events that do not touch the bookkeeping of T *)
+Definition plain (e : uev) : bool :=
+  match e with
+  | UDraw _ | USkip _ | UFailedSeen _ | ULog _ | UChk | UAct _ | UActEnd _ _ | UCustomBegin | UCustomEnd _ => true
+  | _ => false
+  end.
